@@ -52,8 +52,8 @@ ASSUMPTIONS = [
   'strings whose %-formatting or repetition would allocate huge results are skipped (harness resource guard)',
 ]
 TECHNIQUE = 'grammar-based generation + differential evaluation against CPython eval'
-BUDGET = {'quick': dict(examples=40000, shards=8, max_seconds=60),
-          'thorough': dict(examples=400000, shards=16, max_seconds=600)}
+BUDGET = {'quick': dict(examples=12000, shards=8, max_seconds=60),
+          'thorough': dict(examples=200000, shards=16, max_seconds=600)}
 
 parse = predicate_formula.parse_predicate_formula
 
